@@ -30,7 +30,12 @@ ASSUMPTIONS = ["pathmodel (appendix A.7) confirmed by os.path.samefile and by gc
 REQUIRED_HOOKS = ["load_database", "H-gcc-cwd", "H-log"]
 
 TREE = {
-    "src/a.c": '#include "h.h"\ncbi_m_a_2;\n#ifdef FROM_H\ncbi_m_a_4;\n#endif\n#ifdef PRE\ncbi_m_a_7;\n#else\ncbi_m_a_9;\n#endif\n',
+    "src/a.c": '#include "h.h"\ncbi_m_a_2;\n#ifdef FROM_H\ncbi_m_a_4;\n#endif\n#ifdef PRE\ncbi_m_a_7;\n#else\ncbi_m_a_9;\n#endif\n'
+               '#ifdef PRE2_SRC\ncbi_m_a_12;\n#endif\n#ifdef PRE2_INC\ncbi_m_a_15;\n#endif\n',
+    # `-include pre2.h`: a compiler looks in its working directory and then along the search path -- never beside the
+    # source file, where a decoy of the same name sits
+    "src/pre2.h": "#define PRE2_SRC 1\ncbi_m_p2s_2;\n",
+    "inc/pre2.h": "#define PRE2_INC 1\ncbi_m_p2i_2;\n",
     # needs a search directory whose name contains a blank; tests the macro of a forced include
     "src/d.c": '#include <sp.h>\ncbi_m_d_2;\n#ifdef SP\ncbi_m_d_4;\n#endif\n#ifdef PRE\ncbi_m_d_7;\n#else\ncbi_m_d_9;\n#endif\n',
     "my inc/sp.h": "#define SP 1\ncbi_m_sp_2;\n",
@@ -66,7 +71,7 @@ def required_cells(tier):
         cells.append("inc:" + i)
     cells += ["wd:root", "wd:build-inside", "wd:build-outside", "skip:missing/first", "skip:missing/middle", "skip:missing/last",
               "skip:object", "skip:link", "skip:empty-command", "skip:empty-arguments", "skip:blank-command", "relative-I-missing-in-build-dir", "unnamed-file-unattributed",
-              "gcc-confirmed", "class:grid", "class:random", "same-spelling-different-build-dirs", "same-file-spelling-missing-in-one-directory", "dotdot-after-directory-link:file", "dotdot-after-directory-link:inc",
+              "gcc-confirmed", "class:grid", "class:random", "same-spelling-different-build-dirs", "same-file-spelling-missing-in-one-directory", "forced-include-by-name:search-path-not-source-directory", "dotdot-after-directory-link:file", "dotdot-after-directory-link:inc",
               "dotdot-after-directory-link:dir", "dotdot-after-directory-link:pre", "dotdot-after-directory-link:all", "forced-include:rel",
               "forced-include:abs", "forced-include:dots", "search-dir-with-blank:command", "search-dir-with-blank:arguments",
               "header-compiled-on-its-own", "compiled-files-excluded-by-pattern", "skip:missing-long-name", "skip:missing-below-a-file",
@@ -452,6 +457,14 @@ def run_shard(ctx):
         e, m = make_entry(root, base, src, wd_kind, al("dir", "abs"), al("file", "rel"), al("inc", "rel"), form=form,
                           pre=al("pre", [None, "rel"][idx % 2]))
         ctx.acc.cells["dotdot-after-directory-link:" + which] += 1
+        check_db(ctx, base, root, [e], [m], [], "grid")
+    # -include by bare name, found on the search path while a decoy sits beside the source file
+    for wd_kind, fstyle, form in itertools.product(["root", "build-inside", "build-deep", "build-outside"], ["abs", "rel"], ["arguments", "command"]):
+        idx += 1
+        if not ctx.mine(idx):
+            continue
+        e, m = make_entry(root, base, "src/a.c", wd_kind, "abs", fstyle, "rel", form=form, extra=("-include", "pre2.h"))
+        ctx.acc.cells["forced-include-by-name:search-path-not-source-directory"] += 1
         check_db(ctx, base, root, [e], [m], [], "grid")
     # one `file` spelling in two build directories: missing in the first (generated later), present in the second.
     # The warning about the first must not cost the second its place in the configuration (either order, twice each).
